@@ -8,6 +8,7 @@
 
 __all__ = """
 SHOW_INFORMATIONAL_MESSAGES
+any_worker_failed
 resolve_parallelism
 """.split()
 
@@ -71,3 +72,21 @@ def resolve_parallelism(parallel):
         return parallel
 
     return 1
+
+
+def any_worker_failed(workers):
+    """Report whether any worker process has exited abnormally.
+
+    Parameters
+    ----------
+    workers : iterable of :class:`multiprocessing.Process`
+        The worker processes to examine
+
+    Returns
+    -------
+    True if any worker has exited with a nonzero exit code, which is what
+    happens when an exception escapes from its target function. Workers that are
+    still running are not counted.
+
+    """
+    return any(w.exitcode not in (None, 0) for w in workers)
